@@ -142,6 +142,10 @@ def gen(rng, tier):
         for close in (0, 1):
             cases.append(ser(close, 200, "v11", [], "fileshrink:%d:g9_%d:%d" % (n, n, keep)))
         cases.append(ser(0, 200, "none", [("x-a", "b")], "fileshrink:%d:g9_%d:%d" % (n, n + 5, keep), budget=rng.choice([None, n + 200])))
+    # ---- a slow client is not a failed write (thorough tier: 11 s): 32 MiB to a client that stops reading for a while
+    if not quick:
+        cases.append("stall 32 11")
+    cases.append("stall 8 1")
     # ---- random responses with random faults
     nrand = 600 if quick else 20000
     for _ in range(nrand):
@@ -234,6 +238,8 @@ def _parse(c):
 
 
 def classify(c, model):
+    if c.startswith("stall"):
+        return "stall:slow-client"
     kind, t, base, k, body, rest = _parse(c)
     bk = body.split(":")[0]
     m = model.split()
@@ -256,6 +262,8 @@ def extra_evidence(results):
     offs = set()
     kinds = {}
     for r in results:
+        if r[1].startswith("stall"):
+            continue
         kind, t, base, k, body, rest = _parse(r[1])
         if kind == "ser" and rest[1] != "-":
             offs.add(int(rest[1]))
@@ -267,6 +275,8 @@ def extra_evidence(results):
 
 
 def shrink(c):
+    if c.startswith("stall"):
+        return
     kind, t, base, k, body, rest = _parse(c)
     def mk(t2):
         return " ".join(t2)
@@ -310,6 +320,8 @@ def shrink(c):
 
 
 def neighbours(c, rng):
+    if c.startswith("stall"):
+        return
     kind, t, base, k, body, rest = _parse(c)
     out = []
     if kind in ("conn", "sess"):
